@@ -6,8 +6,15 @@ Driver glue for C04.  One line = one aggregate, its inputs and a history:
   `C04 gather <ce> <inputs> <ops>`            gatherResults
   `C04 race <inputs> <ops>`                   race
 
-`inputs` = `-` (none) or `;`-joined `<pre>:<canc>`; `pre` = `u` (unfired) | `v<n>` | `e<n>` (already fired);
-           `canc` = `n` (no canceller) | `p` (returns) | `k<n>` (fires callback(n)) | `f<n>` (fires errback(UserError(n))) | `r` (raises)
+`inputs` = `-` (none) or `;`-joined `<pre>:<canc>`; `pre` = `u` (unfired) | `v<n>` | `e<n>` (already fired)
+             | `w` (called, but waiting on an unfired Deferred that one of its own earlier callbacks returned);
+           `canc` = `n` (no canceller) | `p` (returns) | `k<n>` (fires callback(n)) | `f<n>` (fires errback(UserError(n)))
+             | `r` (raises an `Exception`) | `R` (raises a `BaseException` outside `Exception`)
+`w` decodes like `u`: none of the aggregate's callbacks on such an input has run; `addCallbacks` queues behind the wait;
+`cancel()` is forwarded by `Deferred.cancel` to the inner Deferred, whose canceller (the `canc` given) then has exactly the
+effect the input's own canceller has on an unfired input; an exception it raises propagates through `cancel()` alike.
+`R` decodes like `r`: `DeferredList.cancel` and `race` catch `BaseException`, so for the transcribed code a raising
+canceller is one kind of event whatever it raises (`CancelSpec.raises`).
 `ops`    = `-` or `,`-joined `F<i>v<n>` | `F<i>e<n>` (fire input i) | `C` (cancel the aggregate) | `I<i>` (cancel input i)
 
 Output: `agg=<firings> log=<deliveries> in=<per input>` with
@@ -31,7 +38,7 @@ def decRes (s : String) : Option Res :=
 def decCanc (s : String) : Option CancelSpec :=
   if s = "n" then some .none
   else if s = "p" then some .noop
-  else if s = "r" then some .raises
+  else if s = "r" || s = "R" then some .raises
   else if s.startsWith "k" then (takeNat (s.drop 1).toString).map .firesOk
   else if s.startsWith "f" then (takeNat (s.drop 1).toString).map .firesErr
   else none
@@ -42,7 +49,7 @@ def decInp (s : String) : Option Inp :=
     match decCanc c with
     | none => none
     | some canc =>
-      if pre = "u" then some { canc := canc }
+      if pre = "u" || pre = "w" then some { canc := canc }
       else (decRes pre).map fun r => { res := some r, canc := canc }
   | _ => none
 
